@@ -920,7 +920,12 @@ class World:
             cv = eng.truthy(eng.ev(c, s2), c)
             cond = z3.And(cond, cv)
             s2.guards.append(cv)
-        val = eng.coerce(eng.ev(e.elt, s2), rt.elem, e)
+        saved_state = getattr(eng, 'cur_state', None)
+        eng.cur_state = s2              # obligations raised while evaluating the element are guarded by the filter
+        try:
+            val = eng.coerce(eng.ev(e.elt, s2), rt.elem, e)
+        finally:
+            eng.cur_state = saved_state
         s2.guards = list(st.guards)
         outs = eng.flush_raises(s2)
         if outs:
